@@ -113,6 +113,20 @@ pub fn universe() -> Vec<RuleSpec> {
     r.time = Some(vec![(Some("09:00:00".into()), Some("17:00:00".into()))]);
     r.weekdays = Some(vec!["Mon".into(), "Tue".into()]);
     v.push(r);
+    // r19: an ip bucket whose only rule has an EXCLUDED method list (no plain-method or method-less rule next to it)
+    let mut r = mk("r19", "r19 static /a + ip 10/8 + exclude[GET]");
+    r.ips = Some(vec![(true, "10.0.0.0/8".into())]);
+    r.methods = Some(vec!["GET".into()]);
+    r.exclude_methods = Some(true);
+    v.push(r);
+    // r20 / r21: two pattern rules whose expressions are equal up to the CASE OF AN ESCAPE (\d / \D mean opposite things, also when
+    // the router ignores case)
+    for (id, expr) in [("r20", r"\d+"), ("r21", r"\D+")] {
+        let mut r = mk(id, &format!("{id} dynamic /a/i-@c with c = {expr}"));
+        r.path = "/a/i-@c".into();
+        r.markers.push(("c".into(), expr.to_string()));
+        v.push(r);
+    }
     // r13: the empty host is legal and means "any host"
     let mut r = mk("r13", "r13 host \"\" (any host) static /a");
     r.host = Some(String::new());
@@ -161,8 +175,14 @@ pub fn run_histories(prop: &'static str, checks: Checks, tier: Tier, plans: Vec<
         let mut model = Model::new(&ctx, &w, checks);
         model.cache_ops = cache_ops;
         // max_dev >= 10 marks a "core" plan: only the first variants (r1a .. r4b) plus r9 / r10 may be inserted, explored deeper
-        if max_dev >= 10 {
+        let focus_ids = ["r19", "r20", "r21"];
+        if max_dev >= 20 {
+            // a "focus" plan: the late variants r19 .. r21 together with r1a / r6 / r14 (the general plans leave them out)
+            model.insertable = (0..w.universe.len()).filter(|i| *i == 0 || ["r6", "r14"].contains(&w.universe[*i].id.as_str()) || focus_ids.contains(&w.universe[*i].id.as_str())).collect();
+        } else if max_dev >= 10 {
             model.insertable = (0..w.universe.len()).filter(|i| *i <= 5 || w.universe[*i].id == "r9" || w.universe[*i].id == "r10").collect();
+        } else {
+            model.insertable = (0..w.universe.len()).filter(|i| !focus_ids.contains(&w.universe[*i].id.as_str())).collect();
         }
         let st = explore(&ctx, &model, depth);
         states += st.states;
@@ -196,8 +216,8 @@ pub fn run_histories(prop: &'static str, checks: Checks, tier: Tier, plans: Vec<
 
 pub fn run(tier: Tier) -> i32 {
     let plans = match tier {
-        Tier::Quick => vec![(vec![7, 8], 4, 1, true), (vec![8, 7], 5, 11, true)],
-        Tier::Thorough => vec![(vec![8, 7, 0, 15], 5, 1, true), (vec![8, 7], 6, 11, true), (vec![8], 4, 2, true)],
+        Tier::Quick => vec![(vec![7, 8], 4, 1, true), (vec![8, 7], 5, 11, true), (vec![7, 8], 4, 21, true)],
+        Tier::Thorough => vec![(vec![8, 7, 0, 15], 5, 1, true), (vec![8, 7], 6, 11, true), (vec![8], 4, 2, true), (vec![7, 8, 0], 6, 21, true)],
     };
     run_histories("C02", CHECKS, tier, plans)
 }
